@@ -133,6 +133,71 @@ def c_pre_post(c, used, has_if, k, arr):
                 [e for e in log if e[0] == phase] == [(phase, kd.name, (id(kids[0]), id(o))) for kd in kids[1:]] if kids else True)
 
 
+@contract("field_array.call_bracket", ["C16", "C04"],
+          ["vsc.model.field_array_model.FieldArrayModel.pre_randomize",
+           "vsc.model.field_array_model.FieldArrayModel.post_randomize",
+           "vsc.model.field_array_model.FieldArrayModel.abort_randomize",
+           "vsc.model.field_array_model.FieldArrayModel.trim_to_size",
+           "vsc.model.randomizer.Randomizer._begin_call",
+           "vsc.model.randomizer.Randomizer._abort_call"],
+          lambda tier, seed: [(n0, pad, end, stale) for n0 in (0, 1, 3) for pad in (0, 2, 5) for end in ("abort", "abort_early", "post")
+                              for stale in (None, 0, 2, 7)],
+          note="a random-size scalar list through one call: n0 elements at the start (0: fresh or cleared list), padded by 0..5 "
+               "elements for the solve, then the call is aborted (before or after pre_randomize) or completes with every solved "
+               "size 0..n0+pad; a length left over from an earlier call (None, 0, 2, 7) must not matter")
+def c_call_bracket(c, n0, pad, end, stale):
+    from vsc.model.field_array_model import FieldArrayModel
+    from vsc.model.field_scalar_model import FieldScalarModel
+    import vsc.model.randomizer as R
+
+    def mk():
+        o = FieldArrayModel("l", None, True, None, 8, False, True, True)
+        for i in range(n0):
+            o.append(FieldScalarModel("e", 8, False, True))
+        if stale is not None:
+            o._call_len = stale                                       # what an earlier, interrupted call may have left
+        o.is_used_rand = True
+        return o
+
+    def grow(o):
+        for i in range(pad):                                          # the size bound admits more elements: padded for the solve
+            f = FieldScalarModel("p", 8, False, True)
+            f.parent = o
+            o.field_l.append(f)
+    orig = None
+    if end in ("abort", "abort_early"):
+        o = mk()
+        orig = list(o.field_l)
+        R.Randomizer._begin_call(o)
+        if end == "abort":
+            o.pre_randomize([])
+            grow(o)
+            o.size.set_val(n0 + pad)
+        R.Randomizer._abort_call(o)
+        c.prove("C16: a call that ends with an exception leaves the list with exactly the elements it had when the call started "
+                "(also when it was empty)", o.field_l == orig, info="%d elements, started with %d" % (len(o.field_l), n0))
+        if end == "abort":
+            c.prove("C16: ... and its size field reads that length again", int(o.size.get_val()) == n0, info=str(int(o.size.get_val())))
+        c.prove("C16: no length is remembered once the call is over", getattr(o, "_call_len", None) is None)
+        c.prove("C16: no cached sum/product term survives an aborted call", o.sum_expr_btor is None and o.product_expr_btor is None)
+        return
+    for sz in range(0, n0 + pad + 1):
+        o = mk()
+        orig = list(o.field_l)
+        R.Randomizer._begin_call(o)
+        o.pre_randomize([])
+        grow(o)
+        full = list(o.field_l)
+        o.size.set_val(sz)
+        o.post_randomize([])
+        c.prove("C04: after a completed call the list holds exactly the first `size` elements", o.field_l == full[:sz],
+                info="size %d, %d elements" % (sz, len(o.field_l)))
+        c.prove("C16: no length is remembered once the call is over", getattr(o, "_call_len", None) is None)
+        # an abort that arrives late (exception after post_randomize of this list) must not resurrect or drop anything
+        R.Randomizer._abort_call(o)
+        c.prove("C16: an abort after the list's own post_randomize leaves the solved list alone", o.field_l == full[:sz])
+
+
 @contract("rand_obj.do_pre_post_randomize", ["C17"], ["vsc.rand_obj._randobj.__call__"],
           lambda tier, seed: [(a, b, w) for a in (False, True) for b in (False, True) for w in ("same", "derived", "base_and_override", "instance_level")])
 def c_facade_forward(c, has_pre, has_post, where):
